@@ -553,7 +553,7 @@ func (e *env) queryState(rng *rand.Rand, exhaustive bool) {
 }
 
 func body(r *ev.Run) {
-	r.Rule("states = end (and one mid-history point) of seeded random histories (forks of any depth, several stale branches, orphan chains, late parents, reorganisations, zero-work headers). Small states (<=12 headers): ALL queries — every hash for header/state, every ordered pair for ancestors, every multiset of size <=3 for common ancestor, every (height,count) window over -1..max+2 x 0..5; large states (up to 120 headers): seeded samples. Oracle = reference model with weakest readings (by-height: subset of stored-in-window and superset of longest-in-window; ancestors: contains every strictly-between header, nothing off the path, no duplicates, endpoints optional, order free; unrelated headers => never 200; common ancestor asserted for lists with minimum height >= 1). Headers-table digest compared around reads. evaluations = states queried; distinct = distinct (endpoint, relation/state class) cells; non-trivial = all.")
+	r.Rule("states = end (after a restart in a quarter of them), one mid-history point and half of the reorganisation points of seeded random histories (forks of any depth, several stale branches, orphan chains, late parents, reorganisations, zero-work headers). Small states (<=12 headers): ALL queries — every hash for header/state, every ordered pair for ancestors, every multiset of size <=3 for common ancestor, every (height,count) window over -1..max+2 x 0..5; large states (up to 120 headers): seeded samples. Oracle = reference model with weakest readings (by-height: subset of stored-in-window and superset of longest-in-window; ancestors: contains every strictly-between header, nothing off the path, no duplicates, endpoints optional, order free; unrelated headers => never 200; common ancestor asserted for lists with minimum height >= 1). Headers-table digest compared around reads. evaluations = states queried; distinct = distinct (endpoint, relation/state class) cells; non-trivial = all.")
 	r.Assume("reference model transcribes the statement", "queries whose hash-linked ancestry crosses a parent stored after its child are skipped (stored heights unrelated; statement silent)", "5xx on degenerate arguments are C16's subject, not asserted here")
 	r.Require("ancestors_descendant", 200)
 	r.Require("ancestors_unrelated-equal-height", 20)
@@ -597,7 +597,10 @@ func body(r *ev.Run) {
 					r.Count("histories_cut_short_by_ingest_divergence", 1)
 					return
 				}
-				if k == mid && !small {
+				if (k == mid && !small) || (si.Reorg && k != len(hist.Hdrs)-1 && rng.Intn(2) == 0) {
+					if si.Reorg {
+						r.Count("states_queried_right_after_a_reorganisation", 1)
+					}
 					e.hist = gen.History{Hdrs: hist.Hdrs[:k+1]}
 					e.queryState(rng, false)
 					e.hist = hist
@@ -606,6 +609,14 @@ func body(r *ev.Run) {
 						return
 					}
 				}
+			}
+			if rng.Intn(4) == 0 {
+				// the answers are functions of the stored tree: a restart (new process state, same file) changes nothing
+				if err := st.Restart(); err != nil {
+					r.Violate("restart-failed", err.Error(), caseID, map[string]any{"history_hex": hist.Hex()})
+					return
+				}
+				r.Count("states_queried_after_a_restart", 1)
 			}
 			e.queryState(rng, small && len(m.Order) <= 13)
 			r.Case("", false)
